@@ -63,8 +63,8 @@ def run():
     compare(ck, docs, 'DocGen.html')
     # the other direction: spec/BlockParse.tla READS every line sequence up to 3 (quick) / 4 (thorough) lines over twenty line alphabets
     # and builds the tree CommonMark assigns to it; the real parser must give the HTML of that tree
-    bdocs = blockparse.documents(ck, 3 if ck.tier == 'quick' else 4, deep_more=True)
-    compare(ck, bdocs, 'BlockParse.html')
+    for bdocs in blockparse.document_parts(ck, 3 if ck.tier == 'quick' else 4, deep_more=True):       # (part by part: memory)
+        compare(ck, bdocs, 'BlockParse.html')
     # binding self-test
     m = core.impl()
     d = docs[len(docs) // 2]
